@@ -15,7 +15,7 @@ func init() {
 		Technique:   "validate-before-mutate ordering (CFG must-pass gates on every store to the group's limit fields); value provenance of the reservation arithmetic in getQuotaAllocations and validate*ResourceFit (SSA); must-call / error-propagation in validateQuotasFit",
 		Explanation: "Structural necessary conditions of 'accepted quota groups always fit inside their parents' (the arithmetic invariant over all request sequences is not decided): (R1) UpdateQuotaLimits writes a limit field of the group only after ValidateChange and validateQuotasFit both succeeded, so a refused request leaves the group unchanged and the fit is computed against the limits in force; NewSubGroup attaches the sub-group only after its limits and the group itself validated; NewGroup likewise; (R2) getQuotaAllocations charges a parent, per sub-group and per resource, max(own limit, reserved by its children) - or an equivalent choice that takes 'reserved by children' only where the sub-group's allocation of that very resource is 0 - and recurses into every sub-group; (R3) validateMemory/CPU/ThreadResourceFit compute the room in the nearest limited ancestor as limit - (reservedByChildren - held) where 'held' is the group's own allocation or max(own, reserved by its children), refuse when the request exceeds it or when the children's reservation exceeds the request; (R4) validateQuotasFit gathers the allocations from the top-most ancestor, runs the fit check of every resource present in the request and returns their errors; (R5) validateCPUsAllowedResourceFit refuses a cpu-set that does not contain the children's sets or is not contained in the nearest ancestor set.",
 		NotDecided:  "the numeric invariant itself (sum of children's effective reservations <= limit after every accepted sequence); Resources.Validate/ValidateChange value rules; cpu percentage semantics of GetLocalCPUQuota.",
-		Run:         runC36,
+		Run:         func(c *Ctx) { runC36(c) },
 	})
 }
 
@@ -208,8 +208,41 @@ func runC36(c *Ctx) {
 		phiLeaves(held, room, &leaves, map[*ssa.Phi]bool{})
 		okHeld := len(leaves) > 0
 		why := ""
+		// the ancestor whose room is computed: nothing read from its allocations may count as held by this group
+		// (only allQuotas[grp.Name] describes this group)
+		ownAlloc := func(b ssa.Value) bool {
+			b = Strip(b)
+			if ex, ok := b.(*ssa.Extract); ok {
+				b = ex.Tuple
+			}
+			lk, ok := b.(*ssa.Lookup)
+			return ok && VParam(fn, 1)(lk.X) && VFieldOf(G("Name"), VParam(fn, 0))(lk.Index)
+		}
+		ofAncestor := func(x ssa.Value) bool {
+			b, _, ok := FieldLoad(x)
+			if !ok {
+				return false
+			}
+			pt, isPtr := b.Type().Underlying().(*types.Pointer)
+			if !isPtr {
+				return false
+			}
+			nt, isNamed := pt.Elem().(*types.Named)
+			return isNamed && nt.Obj().Name() == "groupQuotaAllocations" && !ownAlloc(b)
+		}
 		for _, lf := range leaves {
 			v := Strip(lf.Val)
+			fromAnc := DependsOn(v, ofAncestor)
+			if cc, _, isCall := CallResult(v); isCall && isMax(cc) {
+				for _, a := range cc.Common().Args {
+					fromAnc = fromAnc || DependsOn(a, ofAncestor)
+				}
+			}
+			if fromAnc {
+				okHeld = false
+				why = c.P.Pos(lf.Pos()) + " (read from the allocations of another group)"
+				continue
+			}
 			if own(v) {
 				continue
 			}
